@@ -83,7 +83,10 @@ fn extract_bracket_expr(pattern: &str) -> Option<(String, &str)> {
 
                     if matches!(delim, '.' | '=' | ':') {
                         let rest = chars.as_str();
-                        let end = rest.find([delim, ']'])? + 2;
+                        // Look for the two-character terminator (":]", ".]" or "=]"), not
+                        // for the first occurrence of either character.
+                        let terminator: String = [delim, ']'].iter().collect();
+                        let end = rest.find(&terminator)? + 2;
                         expr.push_str(&rest[..end]);
                         chars = rest[end..].chars();
                     }
